@@ -127,6 +127,8 @@ impl S2 {
                 let r = catch_unwind(AssertUnwindSafe(|| self.map.set_betas(x, [b0, b1, b2])));
                 Some(if r.is_ok() { "ok".into() } else { "panic".into() })
             }
+            // the force_ variants are public calls running their own transaction(s) as well
+            ["flink" | "funlink" | "fsew" | "funsew", ..] => self.run_force(toks),
             _ => None,
         }
     }
